@@ -1,7 +1,8 @@
+use crate::internal::sync::RwLock;
 use crate::internal::{consts, DirEntry, MiniAllocator, ObjType, Timestamp};
 use std::fmt;
 use std::path::{Path, PathBuf};
-use std::sync::{Arc, RwLock};
+use std::sync::Arc;
 use uuid::Uuid;
 use web_time::SystemTime;
 
